@@ -125,6 +125,35 @@ def f(self, v):
 ]
 
 SAME += [
+    ("chained comparison vs two tests", """
+def f(self, i, n):
+    if i < 0:
+        raise ValueError
+    if i >= n:
+        raise ValueError
+    return i
+""", """
+def f(self, i, n):
+    if not (0 <= i and i < n):
+        raise ValueError
+    return i
+""" if False else """
+def f(self, i, n):
+    if i < 0 or i >= n:
+        raise ValueError
+    return i
+"""),
+    ("chained comparison spelled out", """
+def f(self, i, n):
+    if 0 <= i and i < n:
+        return i
+    raise ValueError
+""", """
+def f(self, i, n):
+    if 0 <= i < n:
+        return i
+    raise ValueError
+"""),
     ("keyword order of plain values", """
 def f(self, a, b):
     return self.h(x=a, y=b.shape[0])
